@@ -65,13 +65,20 @@ def obligations(tier, seed):
         sets = list(profiles.all_edge_sets(T))
         if T == 4 and not thorough:
             sets = [es for k, es in enumerate(sets) if k % 3 == 0]
+        two_rounds_4 = [es for k, es in enumerate(sets) if k % 8 == 3] if (T == 4 and thorough) else []
         if T == 5:
             sets = [es for k, es in enumerate(sets) if k % 41 == 7]
         for es in sets:
-            for rounds in ((1, 2) if T <= 3 or thorough else (1,)):
+            for rounds in ((1, 2) if T <= 3 else (1,)):
                 spec = {"tasks": [{"w": "$w%d" % i} for i in range(T)], "edges": [[i, j, 0] for (i, j) in es], "teams": []}
                 rmax = 2 if T >= 4 else 3
                 params = [["w%d" % i, 0, rmax] for i in range(T)] + [["dt%d" % r, 0, 2] for r in range(rounds)] + [["r%d_%d" % (r, i), 0, rmax] for r in range(rounds) for i in range(T)]
                 obs.append({"name": "unit/T=%d/rounds=%d/edges=%s" % (T, rounds, ",".join("%d>%d" % e for e in es) or "-"), "harness": "unit",
                             "cube": {"spec": spec, "rounds": rounds}, "params": params, "timeout": 900 if thorough else 150, "engine": "zsym"})
+        for es in two_rounds_4:
+            # a slice of the 4-task networks with two update rounds and a narrower range (0..1)
+            spec = {"tasks": [{"w": "$w%d" % i} for i in range(T)], "edges": [[i, j, 0] for (i, j) in es], "teams": []}
+            params = [["w%d" % i, 0, 1] for i in range(T)] + [["dt%d" % r, 0, 1] for r in range(2)] + [["r%d_%d" % (r, i), 0, 2] for r in range(2) for i in range(T)]
+            obs.append({"name": "unit/T=%d/rounds=2n/edges=%s" % (T, ",".join("%d>%d" % e for e in es) or "-"), "harness": "unit",
+                        "cube": {"spec": spec, "rounds": 2}, "params": params, "timeout": 900, "engine": "zsym"})
     return obs
